@@ -68,16 +68,16 @@ CONFIGS = [("none", ""), ("none+half", "half"), ("alloc", "alloc"), ("alloc+half
 
 def build_vcfg(only=None):
     """Build the feature-matrix probe once per configuration (separate target
-    directories, built concurrently).  RUSTFLAGS carries no hook cfg: these binaries
-    are the library as a user of that configuration compiles it, optimised but with
-    overflow checks and debug assertions on (what `cargo test` users run): arithmetic
+    directories, built concurrently).  RUSTFLAGS is cleared: these binaries are
+    the library as a user of that configuration compiles it (no hooks); the probe's
+    release profile keeps overflow checks and debug assertions on, so arithmetic
     that silently wraps in a plain release build is a panic here."""
     lock = os.path.join(VCFG, "Cargo.lock")
     if not os.path.exists(lock):
         shutil.copy(os.path.join(HARNESS, "Cargo.lock"), lock)
     procs = []
     e = dict(ENV)
-    e["RUSTFLAGS"] = "-C overflow-checks=on -C debug-assertions=on"
+    e["RUSTFLAGS"] = ""
     for name, feats in CONFIGS:
         if only and name not in only:
             continue
@@ -441,10 +441,66 @@ def derive_check(pid, tier, seed, spec):
             all_problems += problems
             dirs.append(wd)
         merged = merge_reports(all_reports)
+        extra = {"generated_crates": crates, "values_per_type": values}
+        if spec.get("neg"):
+            ns, nv, ni = neg_stage(pid)
+            extra["rejected_definitions"] = ns
+            merged["violations"].update(nv)
+            merged["inconclusive"] += ni
+            merged["evaluations"] += ns["programs"]
+            merged["counters"]["definitions the macros must reject: rejected at compile time"] = ns["rejected"]
+            merged["counters"]["definitions the macros must reject: accepted, self-check consistent"] = ns["accepted_consistent"]
         dh = merge_hashes(vmain, dirs)
-        return finish(pid, tier, seed, spec, merged, all_problems, dh, time.time() - t0, {"generated_crates": crates, "values_per_type": values})
+        return finish(pid, tier, seed, spec, merged, all_problems, dh, time.time() - t0, extra)
     finally:
         shutil.rmtree(od, ignore_errors=True)
+
+
+VNEG = os.path.join(HARNESS, "vneg")
+
+
+def neg_stage(pid):
+    """Definitions the derive macros reject today, one per binary of harness/vneg.  A binary that
+    does not build counts as rejected; one that builds (a changed macro accepts the definition)
+    is run and reports its own self-check (len = bytes, well-formed output without duplicate
+    map keys, round trip).  Returns (summary, violations, inconclusive)."""
+    summ = {"tool": "cargo build of harness/vneg binaries (derive macros run on definitions they must reject or handle consistently)", "rejected": 0, "accepted_consistent": 0, "programs": 0}
+    viol, inconc = {}, []
+    lock = os.path.join(VNEG, "Cargo.lock")
+    if not os.path.exists(lock):
+        shutil.copy(os.path.join(HARNESS, "Cargo.lock"), lock)
+    e = dict(ENV)
+    e["RUSTFLAGS"] = ""
+    tdir = os.path.join(HARNESS, "target", "neg")
+    b = subprocess.run(["cargo", "build", "--release", "--offline", "--lib", "--target-dir", tdir], cwd=VNEG, env=e, stdout=subprocess.PIPE, stderr=subprocess.STDOUT, text=True)
+    if b.returncode != 0:
+        inconc.append("negative-definition stage: the support library does not build: %s" % b.stdout[-800:].replace("\n", " | "))
+        return summ, viol, inconc
+    for f in sorted(os.listdir(os.path.join(VNEG, "src", "bin"))):
+        name = f[:-3]
+        summ["programs"] += 1
+        b = subprocess.run(["cargo", "build", "--release", "--offline", "--bin", name, "--target-dir", tdir], cwd=VNEG, env=e, stdout=subprocess.PIPE, stderr=subprocess.STDOUT, text=True)
+        if b.returncode != 0:
+            summ["rejected"] += 1
+            continue
+        try:
+            r = subprocess.run([os.path.join(tdir, "release", name)], stdout=subprocess.PIPE, stderr=subprocess.STDOUT, text=True, timeout=60)
+        except subprocess.TimeoutExpired:
+            inconc.append("negative-definition program %s did not finish" % name)
+            continue
+        lines = [l for l in r.stdout.splitlines() if l.startswith("NEG ")]
+        if r.returncode != 0 or not lines:
+            # the accepted definition makes the generated code panic / abort on its own value
+            sig = "%s|accepted-definition|%s|crash" % (pid, name)
+            viol[sig] = {"count": 1, "examples": [{"detail": {"what": "the macros now accept this definition and the program ended with %s: %s" % (r.returncode, r.stdout[-400:]), "source": "harness/vneg/src/bin/%s.rs" % name}, "replay": []}]}
+            continue
+        mine = [l for l in lines if " FAIL %s:" % pid in l]
+        if mine:
+            sig = "%s|accepted-definition|%s" % (pid, name)
+            viol[sig] = {"count": len(mine), "examples": [{"detail": {"what": "the macros now accept this definition, and: " + " ; ".join(l.split(" FAIL ", 1)[1] for l in mine)[:900], "source": "harness/vneg/src/bin/%s.rs" % name}, "replay": []}]}
+        else:
+            summ["accepted_consistent"] += 1
+    return summ, viol, inconc
 
 
 # --------------------------------------------------------------------------- sanitizer stages
@@ -794,6 +850,7 @@ CHECKS["C13"] = {
 CHECKS["C07"] = {
     "sub": "c07",
     "runner": derive_check,
+    "neg": True,
     "builtin_too": True,
     "values": {"quick": 5000, "thorough": 30000},
     "engine": "vmain+vgen",
@@ -801,7 +858,7 @@ CHECKS["C07"] = {
     "technique": "runtime monitoring: len() vs bytes actually written, exact-size and one-byte-short slice experiments",
     "rule": "built-in impls: values of every built-in CborLen type from the boundary-dense generators, slices and borrowed forms, every Token variant (all 65536 half patterns, Simple 0..=255, byte strings with bytes >= 0x18); derived impls: every type of the generated schema crates (see C08: array/map, index gaps, every Some/None combination of up to 7 optional fields then random, tags at every level incl. on optional fields, >= 24 and >= 256 declared fields, transparent, skip, index_only, with/cbor_len custom codecs) x generated values; a case is non-trivial when encoding succeeded and len() was compared; distinct by hash of (type, encoding)",
     "level_text": "len(v) is compared with the number of bytes the encoder really writes, and the two buffer experiments (exactly len bytes suffices, len-1 fails, canary intact) are run for every value; the value spaces are unbounded so they are explored boundary-dense, the finite token sub-domains exhaustively.",
-    "level_note": "Trusted: the encoder as the source of the true length (C03 checks it).",
+    "level_note": "Trusted: the encoder as the source of the true length (C03 checks it). A second stage builds 20 definitions the macros reject today (duplicate n/b indices in structs, tuple structs, variants and variant fields; transparent with zero / two / skipped extra fields; index_only with fields, on a struct, with a tag; missing indices; contradictory attributes): each must still fail to build, or, if a changed macro accepts it, pass the program's own self-check (len = bytes written, one well-formed item without duplicate map keys, round trip).",
     "assumptions": COMMON_ASSUMPTIONS,
 }
 
@@ -860,26 +917,28 @@ DERIVE_RULE = "programs: type definitions drawn from a schema grammar (named/tup
 CHECKS["C08"] = {
     "sub": "c08",
     "runner": derive_check,
+    "neg": True,
     "values": {"quick": 5000, "thorough": 30000},
     "engine": "vgen",
     "level": "exploration",
     "technique": "runtime monitoring of generated programs: derived Encode output vs a reference encoder that interprets the schema description",
     "rule": DERIVE_RULE + "; each value's derived encoding must equal the reference encoding computed from the schema description (names, declaration order and n/b never enter the reference); twin types (renamed, declarations reversed, n<->b flipped) must give identical bytes; distinct = hash of (type, bytes)",
     "level_text": "The quantifier is over programs, so the workload generates programs: each generated type is compiled with the real derive macros and its output compared byte-for-byte with a reference encoder written from the documented format over the schema description, for all presence combinations of optional fields. This is exploration over a grammar with an exact oracle.",
-    "level_note": "Trusted: harness/dsupport/src/refschema.rs (documented format), gen_schemas.py (the description it emits matches the attributes it writes). A field-level tag inside a transparent struct is outside the grammar (silently ignored by the macro on both sides). One documented-but-ambiguous corner is accepted either way: an absent tagged optional that is not trailing in an array may be `tag null` or `null`.",
+    "level_note": "Trusted: harness/dsupport/src/refschema.rs (documented format), gen_schemas.py (the description it emits matches the attributes it writes). A field-level tag inside a transparent struct is outside the grammar (silently ignored by the macro on both sides). One documented-but-ambiguous corner is accepted either way: an absent tagged optional that is not trailing in an array may be `tag null` or `null`. A second stage builds 20 definitions the macros reject today (duplicate n/b indices in structs, tuple structs, variants and variant fields; transparent with zero / two / skipped extra fields; index_only with fields, on a struct, with a tag; missing indices; contradictory attributes): each must still fail to build, or, if a changed macro accepts it, pass the program's own self-check (len = bytes written, one well-formed item without duplicate map keys, round trip).",
     "assumptions": COMMON_ASSUMPTIONS,
 }
 
 CHECKS["C09"] = {
     "sub": "c09",
     "runner": derive_check,
+    "neg": True,
     "values": {"quick": 5000, "thorough": 30000},
     "engine": "vgen",
     "level": "exploration",
     "technique": "runtime monitoring of generated programs: derived Decode of the derived encoding vs view equality, position, provenance of borrowed fields; re-framed and corrupted encodings",
     "rule": DERIVE_RULE + "; per value: decode(encode(v)) must equal v (skipped fields default), stop at the end, and every &str/&[u8]/&ByteSlice field and every Cow under #[b] must point into the input; re-framings documented as accepted (field containers and collections indefinite, wider heads) must give the same value, all-indefinite re-framings the same value or an error; corrupted encodings (wrong tag, stripped tag on a present value, missing mandatory field, unknown top-level variant) must fail with the documented error class; distinct = hash of (type, bytes)",
     "level_text": "Round-trip, exact consumption and zero-copy claims are observed on real derived code for generated programs; the negative cases are produced by editing the reference item tree, so each corruption is exactly one documented failure cause.",
-    "level_note": "Trusted: refschema::expected_type / markers for re-framing; pointer-range provenance monitor. Option<Option<_>> decodes Some(None) as None (lossy by construction).",
+    "level_note": "Trusted: refschema::expected_type / markers for re-framing; pointer-range provenance monitor. Option<Option<_>> decodes Some(None) as None (lossy by construction). A second stage builds 20 definitions the macros reject today (duplicate n/b indices in structs, tuple structs, variants and variant fields; transparent with zero / two / skipped extra fields; index_only with fields, on a struct, with a tag; missing indices; contradictory attributes): each must still fail to build, or, if a changed macro accepts it, pass the program's own self-check (len = bytes written, one well-formed item without duplicate map keys, round trip).",
     "assumptions": COMMON_ASSUMPTIONS,
 }
 
